@@ -303,6 +303,8 @@ class Frame(Widget, WidgetContainerMixin, typing.Generic[BodyWidget, HeaderWidge
 
             __slots__ = ()
 
+            keys = self._contents_keys
+
             def __len__(inner_self) -> int:
                 return len(inner_self.keys())
 
